@@ -345,6 +345,15 @@ def main():
         prop, tier, seed, merged["evaluations"], distinct_n, merged["inconclusive"], merged["out_of_scope"], len(real),
         sum(len(v) for v in knownhits.values()), wall))
     if real:
+        if not replay:
+            # keep the complete output directory of a failing run (witnesses, child logs) for triage
+            keepdir = os.path.join(VERIF, "out", "failed", "%s-%s-%d-%d" % (prop, tier, seed, int(time.time())))
+            os.makedirs(os.path.dirname(keepdir), exist_ok=True)
+            try:
+                shutil.copytree(outdir, keepdir, ignore=shutil.ignore_patterns("*.test"))
+                print("  (run directory kept at %s)" % keepdir)
+            except OSError:
+                pass
         sys.exit(1)
     if not replay and (merged["evaluations"] < 1 or distinct_n < 2):
         print("NO-EVIDENCE property=%s: the monitors observed too little to give a verdict" % prop)
